@@ -159,3 +159,47 @@ pub proof fn lemma_toks_ops_split(v: PV, e: Env, ts: Seq<PreflateToken>, k: int)
         assert(an.0.subrange(0, ak.0.len() as int) =~= ap.0.subrange(0, ak.0.len() as int));
     }
 }
+
+// ---- position / counter bookkeeping lemmas ----
+pub proof fn lemma_sp_stored_pos(v: PV, e: Env, n: nat)
+    ensures sp_stored(v, e, n).pos == v.pos + n, sp_stored(v, e, n).count == v.count, sp_stored(v, e, n).pending == v.pending,
+    decreases n
+{ if n > 0 { lemma_sp_stored_pos(v, e, (n - 1) as nat); } }
+pub proof fn lemma_tok_ops_pos(v: PV, e: Env, t: PreflateToken)
+    ensures tok_ops(v, e, t) matches Some(b) ==> b.1.pos == v.pos + tok_len(t) && b.1.count == (v.count + 1) as u32,
+{}
+pub proof fn lemma_toks_ops_pos(v: PV, e: Env, ts: Seq<PreflateToken>)
+    requires v.count + ts.len() <= u32::MAX,
+    ensures toks_ops(v, e, ts) matches Some(a) ==> a.1.pos == toks_pos(v.pos, ts) && a.1.count == v.count + ts.len(),
+    decreases ts.len()
+{
+    if ts.len() > 0 {
+        lemma_toks_ops_pos(v, e, ts.drop_last());
+        match toks_ops(v, e, ts.drop_last()) { Some(a) => { lemma_tok_ops_pos(a.1, e, ts.last()); }, None => {} }
+    }
+}
+pub proof fn lemma_toks_in_text_prefix(text: Seq<u8>, pos: int, ts: Seq<PreflateToken>, k: int)
+    requires toks_in_text(text, pos, ts), 0 <= k <= ts.len(),
+    ensures toks_in_text(text, pos, ts.subrange(0, k)), k < ts.len() ==> tok_in_text(text, toks_pos(pos, ts.subrange(0, k)), ts[k]),
+    decreases ts.len()
+{
+    if k == ts.len() { assert(ts.subrange(0, k) =~= ts); } else {
+        lemma_toks_in_text_prefix(text, pos, ts.drop_last(), if k < ts.len() - 1 { k } else { ts.len() - 1 });
+        if k < ts.len() - 1 {
+            assert(ts.drop_last().subrange(0, k) =~= ts.subrange(0, k));
+            assert(ts.drop_last()[k] == ts[k]);
+        } else {
+            assert(ts.subrange(0, k) =~= ts.drop_last());
+        }
+    }
+}
+
+
+/// the position after a block is where the plaintext it denotes ends
+pub proof fn lemma_block_ops_pos(v: PV, e: Env, b: PreflateTokenBlock, last: bool)
+    requires b.tokens@.len() <= u32::MAX,
+    ensures block_ops(v, e, b, last) matches Some(r) ==> r.1.pos == (if b.block_type is Stored { v.pos + b.uncompressed@.len() } else { toks_pos(v.pos, b.tokens@) }),
+{
+    let v0 = PV { hv: v.hv, pending: None, count: 0, pos: v.pos };
+    if b.block_type is Stored { lemma_sp_stored_pos(v0, e, b.uncompressed@.len()); } else { lemma_toks_ops_pos(v0, e, b.tokens@); }
+}
